@@ -152,6 +152,8 @@ package k8s
 //@         && ptsMinus2(newAdminPolicyConns.PassConns, pc.DeniedConns, pc.AllowedConns)
 
 //@ func (*PolicyConnections).CollectAllowedConnsFromNetpols
+//@   ensures [C02] frame: pcOthersKept(pc, npConns.AllowedConns)
+//@   hint ensures.frame: requires, call*.others, call*.wf
 //@   requires wfPC(pc) && npConns != nil && wfCS(npConns.AllowedConns) && sepPCCS(pc, npConns.AllowedConns)
 //@   modifies common.ConnectionSet.AllowAll { r | true }, common.ConnectionSet.AllowedProtocols { r | true }
 //@   modifies map[v1.Protocol]*common.PortSet { m | true }, common.PortSet.Ports { r | true }, map[string]bool { m | true }
@@ -161,6 +163,7 @@ package k8s
 //@         pts(pc.AllowedConns, q, n) == (old(pts(pc.AllowedConns, q, n)) || (old(pts(npConns.AllowedConns, q, n)) && !old(pts(pc.DeniedConns, q, n))))
 
 //@ func (*PolicyConnections).CollectConnsFromBANP
+//@   ensures [C02] frame: pcOthersKept(pc, banpConns.DeniedConns)
 //@   requires wfPC(pc) && wfPC(banpConns) && sepPCPC(pc, banpConns)
 //@   modifies pc.AllowedConns
 //@   modifies common.ConnectionSet.AllowAll { r | true }, common.ConnectionSet.AllowedProtocols { r | true }
